@@ -80,7 +80,7 @@ PROPS['C14'] = dict(
     rule='cases = (n, op, p, aliasing, content1, content2) for 8 LWE ops, n in 1..40 + {500,630,1023,1024,1025,2048}; (N,k,op,variant,content) for 10 TLWE ops, '
          'N in 2..1024, k in 1..3 (all a in [0,2N) for N<=64); (N,k,content,j) extraction for every j. Non-trivial = n not a multiple of 8, or n<8, or p not in {0,1}; all TLWE/extraction cases. '
          'Oracle: coefficient arrays and phases (3 keys) equal exact wrapping arithmetic; variance annotation; guard pages after/before every heap block (sees the inline-asm accesses ASan cannot)',
-    bounds={'quick': 'full case product on optim (guard after, guard before), debug (guard after), asan; ring degrees that are not powers of two (3..1023); library phase / decryption read before and after every in-place operation', 'thorough': '+ asan-debug, + fftw back-end'},
+    bounds={'quick': 'full case product on optim (guard after, guard before), debug (guard after), asan; ring degrees that are not powers of two (3..1023); library phase / decryption read before and after every in-place operation; four keys incl. arbitrary integer coefficients', 'thorough': '+ asan-debug, + fftw back-end'},
     assumptions=['LWE/TLWE linear code is in the core objects shared by all back-ends', 'variance annotation checked for |p| < 2^15 as the property states'],
     jobs=_c14,
 )
@@ -104,7 +104,7 @@ PROPS['C08'] = dict(
          'through lweKeySwitch; boundary alphabet (+-64 around every digit-carry boundary, 0, 2^31, 2^32-1) for 10 layouts x {noiseless, noisy key}; '
          '(n_in, n_out, layout, key kind, content) dimension pairs. Oracle: exact equality phase_out-phase_in = s(a-round_t(a)) - sum of the errors of the rows used '
          '(errors known from the secret keys; either neighbour accepted on an exact rounding tie). every case non-trivial (key bit 1 or noisy rows)',
-    bounds={'quick': 'default layout (8,2), n_out=8: residue class a = VERIF_SEED (mod 64) of all 2^32 values for noiseless and noisy keys; boundary alphabet for 10 layouts; 36 dimension pairs x 12 contents under guard pages / ASan; key-switching keys embedded in bootstrapping keys (k in 1..3, 7 cells): bk->ks and the copy in the FFT key exact and bit-identical, unchanged after bk is re-keyed / deleted; every library-generated row within 10 sigma; keys generated by the library with noise 0 exact for 15 layouts up to t*basebit=31, first and second generation',
+    bounds={'quick': 'default layout (8,2), n_out=8: residue class a = VERIF_SEED (mod 64) of all 2^32 values for noiseless and noisy keys; boundary alphabet for 10 layouts; 36 dimension pairs x 12 contents under guard pages / ASan; key-switching keys embedded in bootstrapping keys (k in 1..3, 7 cells): bk->ks and the copy in the FFT key exact and bit-identical, unchanged after bk is re-keyed / deleted; every library-generated row within 10 sigma; keys generated by the library with noise 0 exact for 15 layouts up to t*basebit=31, first and second generation, and by the legacy generator lweCreateKeySwitchKey_old (noisy and noiseless)',
             'thorough': 'all 2^32 values of a for (8,2) noiseless+noisy and (31,1),(15,2),(16,1),(3,10),(1,1) noiseless, residue class mod 16 for the others; 49 dimension pairs'},
     assumptions=['key-switching code is in the core objects shared by all back-ends', 'rounding ties (a exactly half-way between two multiples of 2^(32-t*basebit)) may go either way'],
     jobs=_c08,
@@ -173,7 +173,7 @@ PROPS['C03'] = dict(
     rule='cases = (scheme, dimension, Msize, noise level index, key seed): all messages of [0,Msize) for Msize<=64 ({0,1,M/2,M-1} above) for LWE and TLWE-constant, '
          'a polynomial message carrying every message for TLWE/TGSW; trivial samples under several keys; 2000 fresh gate ciphertexts per default set. '
          'noise levels {0, 2^-30, 2^-25, <=2^-15, 1/(40M), 1/(20M)} (TGSW: up to 1/(20 Bg), its decryptable maximum). non-trivial = alpha>0 and message != 0. oracle: exact equality',
-    bounds={'quick': 'ring masks k in 1..4 (TLWE), 1..3 (TGSW, re-keyed objects, trivial samples); K=1 key seed per cell; spqlios-fma + fftw (optim) + nayuki-portable (debug)', 'thorough': 'K=4 seeds x 5 back-ends (optim) + K=1 x 5 back-ends (debug)'},
+    bounds={'quick': 'every message of nine large message spaces (4.6 M) through the decryption rounding; LWE dimensions incl. 152, 250, 1023; ring masks k in 1..4 (TLWE), 1..3 (TGSW, re-keyed objects, trivial samples); K=1 key seed per cell; spqlios-fma + fftw (optim) + nayuki-portable (debug)', 'thorough': 'K=4 seeds x 5 back-ends (optim) + K=1 x 5 back-ends (debug)'},
     assumptions=['10 sigma margin: a correct tree fails a case with probability < 1e-22; every case is deterministic given (VERIF_SEED, case key)',
                  'TGSW decryptable maximum is what tGswSymDecrypt amplifies: Msize*alpha*(Bg/Msize) <= 1/20', 'ring schemes at N=1024 (FFT back-ends implement no other size)'],
     jobs=_c03,
@@ -196,7 +196,7 @@ PROPS['C05'] = dict(
     rule='cases = (dimension tuple, real-valued parameter tuple, content pattern, object type, transport) for the 13 stand-alone types; (reals, content, type, transport) for cloud/secret key sets at N=1024; '
          'the two default parameter sets; every ordered pair (thorough: triple) of the 15 types written back-to-back into one stream. oracle: field-for-field equality (doubles bit-for-bit, arrays memcmp, '
          'key-row variances against the common maximum), stream position, export(import(bytes)) == bytes, FILE bytes == stream bytes. non-trivial = a real not representable in 8 decimals or a binary section',
-    bounds={'quick': '64 x 16384 pairs of doubles (seeded mantissas, exponents 2^-40..2^-1, short decimals) through LweParams/TLweParams; A, B (= A with ONE field changed: 4 reals, 6 integers), A imported from one stream for 15 types x 2 transports; 4 dimension tuples x 11 real tuples (1e-12..0.5 incl. 2^-15, 2^-25, 7.18e-9) x 6 contents x 13 types x 2 transports; key sets: 11 reals x seeded (+MIN, END-marker for 3); default sets; all 225 ordered pairs x 2 transports',
+    bounds={'quick': 'a functional small key set: all gates under original and re-imported cloud key export to identical ciphertext bytes; 64 x 16384 pairs of doubles (seeded mantissas, exponents 2^-40..2^-1, short decimals) through LweParams/TLweParams; A, B (= A with ONE field changed: 4 reals, 6 integers), A imported from one stream for 15 types x 2 transports; 4 dimension tuples x 11 real tuples (1e-12..0.5 incl. 2^-15, 2^-25, 7.18e-9) x 6 contents x 13 types x 2 transports; key sets: 11 reals x seeded (+MIN, END-marker for 3); default sets; all 225 ordered pairs x 2 transports',
             'thorough': '+ all ordered triples (at most one key set per triple); complete default 80/128-bit key sets: every gate bit-identical under the re-imported cloud key, re-imported secret key decrypts identically'},
     assumptions=['variance of key rows is stored once and comes back as the common maximum (allowed by the statement)', 'key sets need N=1024 because import recomputes the FFT image'],
     jobs=_c05, max_report=12,
@@ -297,7 +297,7 @@ PROPS['C09'] = dict(
     rule='cases = (k, l, Bgbit, row kind, message m, position j, TLWE content) through the three external-product variants; (n, k, l, Bgbit, exponent vector) through tfhe_blindRotate[_FFT]. TGSW rows are built by the harness '
          'with exact arithmetic and known errors e_p. oracle: phase(result) - m*phase(c) - sum dec_p*e_p within |m|_1 (1+kN) 2^(32-l Bgbit) + FFT budget (exact gadget + noiseless rows: FFT rounding only); variants agree at ciphertext level; '
          'phase(acc_out) = X^(sum bara_i s_i) phase(acc_in); all-zero exponents leave the accumulator bit-identical. non-trivial = m != 0 and c non-trivial; rotations with a non-zero exponent',
-    bounds={'quick': '14 (k,l,Bgbit) cells incl. (8,4),(2,16),(1,8),(32,1),(20,1),(16,2),(2,15), k=3; m in {0,1,-1,X^1,X^512,X^1023,1+X,-X^(N-1),small-norm}; 6 TLWE contents; noisy rows for two layouts; n=1: bara = VERIF_SEED mod 16 class + boundaries, n=2,3: {0,1,N-1,N,N+1,2N-1}^n',
+    bounds={'quick': '14 (k,l,Bgbit) cells incl. (8,4),(2,16),(1,8),(32,1),(20,1),(16,2),(2,15), k=3; tGswFFTClear+tGswFFTAddH = the sample of 1 for every cell; m in {0,1,-1,X^1,X^512,X^1023,1+X,-X^(N-1),small-norm}; 6 TLWE contents; noisy rows for two layouts; n=1: bara = VERIF_SEED mod 16 class + boundaries, n=2,3: {0,1,N-1,N,N+1,2N-1}^n',
             'thorough': 'X^j for every j on the default 80-bit layout (stride 97 elsewhere); every bara in [0,2N) for n=1; 5 back-ends'},
     assumptions=['digits dec_p are those the library produces for a copy of the input (their correctness is C12)', 'FFT budget per product 2*max(1,Bg/2^10) units per coefficient, amplified by (1+kN) at phase level'],
     jobs=_c09,
